@@ -80,6 +80,13 @@ pub fn case(x: &Xfer) -> CaseOut {
             );
         }
     }
+    // receive-buffer accounting: with nothing queued for the application nothing is accounted
+    for c in &w.conns {
+        let p = c.c.verif_probe();
+        if p.datagram_incoming == 0 && p.datagram_recv_buffered != 0 {
+            return CaseOut::fail("c16/recv-buffer-accounting", format!("{:?}: no datagram is waiting for the application but {} bytes of the receive buffer are accounted as used (they would be missing for later datagrams)", c.side, p.datagram_recv_buffered));
+        }
+    }
     // queued datagrams leave (or are discarded) once nothing holds the sender back: with nothing in
     // flight, no loss-detection or pacing timer, a validated path and an empty link, a non-empty send
     // queue can only hold datagrams that no longer fit a packet - which must have been dropped
